@@ -8,7 +8,7 @@ def send(rng, hdr, short, avail=True, newctx=False, pdu=None):
     return {"op": "send", "pdu": (pdu if pdu is not None else L.pick_msg(rng, short, gsm=True)).hex(), "hdr": hdr, "avail": avail, "newctx": newctx}
 
 
-def history(rng, ia, ea, kind, nsend, lead_newctx):
+def history(rng, ia, ea, kind, nsend, lead_newctx, dl=False):
     """one UE context: [new-context send] ; jump in front of the boundary ; sends across it ; then resets,
     sends without context, DLCount jumps, more sends"""
     short = (ia == 1 or ea == 1)
@@ -29,6 +29,11 @@ def history(rng, ia, ea, kind, nsend, lead_newctx):
         if late and rng.chance(1, 10):
             ops.append({"op": "setdl", "ovf": rng.below(65536), "sqn": rng.below(256)})
         ops.append(send(rng, hdr, short, newctx=late and rng.chance(1, 6)))
+        if dl and rng.chance(1, 3):
+            # downlink traffic in between (the uplink COUNT must not notice): a protected-looking downlink message whose
+            # sequence number is BELOW the one last seen (the downlink wrap) or above it; it need not verify
+            hdr_d = rng.choice([1, 2, 2, 4])
+            ops.append({"op": "recv", "pkt": (bytes([0x7e, hdr_d]) + rng.bytes(4) + bytes([rng.choice([0, 1, 5, 200, 254, 255, rng.below(256)])]) + L.pick_msg(rng, True)).hex(), "canon": False})
     return {"ea": ea, "ia": ia, "kenc": rng.bytes(16).hex(), "kint": rng.bytes(16).hex(), "ops": ops, "kind": kind}
 
 
@@ -60,7 +65,7 @@ class UlHistories(Stream):
             ia, ea = rng.choice(L.PAIRS)
             slow = ia == 1 or ea == 1
             n = rng.range(1, 8 if slow else 40) if quick else rng.range(1, 40)
-            cs.append(history(rng, ia, ea, rng.choice(["octet", "carry", "wrap24", "mid"]), n, rng.chance(1, 2)))
+            cs.append(history(rng, ia, ea, rng.choice(["octet", "carry", "wrap24", "mid"]), n, rng.chance(1, 2), dl=(i % 3 == 0)))
         # messages longer than 4096 octets (UL NAS TRANSPORT with a large payload container), ciphered
         for ia, ea in ([(2, 2), (1, 1)] if quick else L.PAIRS):
             h = history(rng, ia, ea, "mid", 2, False)
